@@ -74,13 +74,6 @@ def _dumps(obj):
     return bytes(ForkingPickler.dumps(obj))
 
 
-class _Remote:
-    """pickled exception as it arrives in the parent"""
-
-    def __init__(self, exc):
-        self.exc = exc
-
-
 def _run_chunk(director, func_bytes, star, chunk):
     """execute one chunk like a worker process would: fresh unpickled callable and arguments, pickled result"""
     arg_bytes = _dumps(chunk)
